@@ -541,9 +541,10 @@ class Sess:
         if not self.expect_ok(exc, "from_shape"):
             return None
         m = VecModel(shape, mfields, units)
-        # populate through the cell-assignment paths
+        # populate through the cell-assignment paths; sometimes exactly one populated cell, the others unset
+        only = m.order()[int(rng.integers(len(m.order())))] if rng.random() < 0.15 else None
         for ix in m.order():
-            if rng.random() < 0.25:
+            if (only is None and rng.random() < 0.25) or (only is not None and ix != only):
                 continue
             c = _rand_cell(rng, nf, self.kind)
             how = int(rng.integers(2))
@@ -736,6 +737,8 @@ def _op_set_block_list(S, mode, via):
     m = S.m
     if mode == "list_unique" and max(m.shape) < 2:
         mode = "slice_noneg"
+    if mode == "data_multi" and max(m.shape) < 2:
+        return _op_set_cell(S, "data")  # a one-cell vector has no block of two cells
     idx, pat = S.index(m.shape, mode)
     S.extra = _pattern_fields(pat, m.ndim)
     vals = _values_for(S, _count(m, idx))
@@ -1006,6 +1009,7 @@ def _op_copy(S):
     if not S.expect_ok(exc, "copy()"):
         return False
     mc = m.copy()
+    mc.meta_own, mc.meta_allowed = set(), set(getattr(m, "meta_allowed", set()))  # a copy may carry its source's metadata
     if S.compare_result(cp, mc, "copy()"):
         S.live.append([cp, mc])
         if S.rng.random() < 0.5:
@@ -1026,16 +1030,20 @@ def _op_new_vector(S):
 
 
 def _op_metadata(S):
-    rng, r = S.rng, S.r
-    snap = [_copy.deepcopy(dict(rr.metadata)) for rr, _ in S.live]
-    key = "k%d" % int(rng.integers(1000))
+    rng, r, m = S.rng, S.r, S.m
+    S.meta_serial += 1
+    key = "k%d_%d" % (S.meta_serial, int(rng.integers(1000)))
     val = [int(rng.integers(100))]
+    snap = None if S.sparse else [_copy.deepcopy(dict(rr.metadata)) for rr, _ in S.live]
     _, exc = S.call(lambda: r.metadata.__setitem__(key, val))
     if not S.expect_ok(exc, "metadata[%r] = ..." % key):
         return True
-    leaked = [j for j, (rr, _) in enumerate(S.live) if j != S.cur and dict(rr.metadata) != snap[j]]
-    S.ctx.check(not leaked, "metadata_leak", "writing metadata[%r] of one vector changed the metadata of %d other live vector(s)" % (key, len(leaked)), what="metadata", **S.fields())
-    S.ctx.check(r.metadata.get(key) == val, "metadata_leak", "metadata write not visible on the vector itself", lost=True, **S.fields())
+    m.meta_own = getattr(m, "meta_own", set()) | {key}
+    m.meta_allowed = getattr(m, "meta_allowed", set()) | {key}
+    if snap is not None:  # dense: immediate comparison; sparse: Sess.metadata_keys() at the end of the history
+        leaked = [j for j, (rr, _) in enumerate(S.live) if j != S.cur and dict(rr.metadata) != snap[j]]
+        S.ctx.check(not leaked, "metadata_leak", "writing metadata[%r] of one vector changed the metadata of %d other live vector(s)" % (key, len(leaked)), what="metadata", **S.fields())
+        S.ctx.check(r.metadata.get(key) == val, "metadata_leak", "metadata write not visible on the vector itself", what="metadata", lost=True, **S.fields())
     return True
 
 
@@ -1062,6 +1070,8 @@ def _op_invalid_set(S):
         v = np.zeros(m.nf)
         S.mutate(lambda r: r.set_data(v, *idx), lambda mm: mm.set_data(v, *idx), "set_data(1-D array)")
     elif variant in ("block_cols", "data_block_cols", "block_count"):
+        if variant == "data_block_cols" and max(m.shape) < 2:
+            variant = "block_cols"
         bidx, bpat = S.index(m.shape, "data_multi" if variant == "data_block_cols" else "slice_noneg")
         S.extra.update(_pattern_fields(bpat, m.ndim))
         n = _count(m, bidx)
@@ -1164,7 +1174,138 @@ def _op_invalid_index(S):
     return True
 
 
+def _iop_stmt(r, name, op, other):
+    if op == "iadd":
+        r[name] += other
+    elif op == "isub":
+        r[name] -= other
+    elif op == "imul":
+        r[name] *= other
+    elif op == "itruediv":
+        r[name] /= other
+    elif op == "ifloordiv":
+        r[name] //= other
+    elif op == "imod":
+        r[name] %= other
+    else:
+        r[name] **= other
+
+
+def _rand_iop(S):
+    rng = S.rng
+    if S.kind == "int":
+        return str(rng.choice(["iadd", "isub", "imul"])), int(rng.choice([2, 3, 5]))
+    return str(rng.choice(["iadd", "isub", "imul", "itruediv"])), float(rng.choice([2.0, -1.5, 0.5, 3.0]))
+
+
+def _op_schema_churn(S):
+    """[by-name access,] remove k fields, add k fields [, by-name access / arithmetic / write-back] with nothing observed
+    in between: the field count is the same before and after, the columns behind the names are not"""
+    rng, m, r = S.rng, S.m, S.r
+    if rng.random() < 0.6:
+        name = _pick_field(S)
+        res, exc = S.call(lambda: r[name].flatten())
+        if S.expect_ok(exc, "v[%r].flatten()" % name):
+            S.compare_result(res, m.field_flatten(name), "v[%r].flatten()" % name)
+    k = int(rng.integers(1, 3))
+    if m.nf >= 2 and rng.random() < 0.75:
+        k = min(k, m.nf - 1)
+        # favour early columns so that surviving fields move
+        order = list(m.fields) if rng.random() < 0.6 else [str(x) for x in rng.permutation(m.fields)]
+        gone = order[:k]
+        style = int(rng.integers(3))
+        new = list(gone) if style == 0 else (_fresh_names(S, k) if style == 1 else (gone[:1] + _fresh_names(S, k - 1)))
+        if rng.random() < 0.5:
+            new.reverse()
+        S.extra = {"variant": "remove_add"}
+        S.mutate(lambda rr: rr.remove_fields(list(gone) if len(gone) > 1 or rng.random() < 0.5 else gone[0]), lambda mm: mm.remove_fields(gone), "remove_fields(%r)" % (gone,))
+        S.mutate(lambda rr: rr.add_fields(list(new)), lambda mm: mm.add_fields(new), "add_fields(%r) after remove_fields(%r)" % (new, gone))
+    else:
+        new = _fresh_names(S, k)
+        gone = [str(x) for x in (m.fields[:k] if rng.random() < 0.6 else rng.permutation(m.fields)[:k])]
+        S.extra = {"variant": "add_remove"}
+        S.mutate(lambda rr: rr.add_fields(list(new)), lambda mm: mm.add_fields(new), "add_fields(%r)" % (new,))
+        S.mutate(lambda rr: rr.remove_fields(list(gone)), lambda mm: mm.remove_fields(gone), "remove_fields(%r) after add_fields(%r)" % (gone, new))
+    m = S.m
+    follow = int(rng.integers(4))
+    if follow == 0:
+        return True
+    # a field that existed before (its column moved) or a re-created name, before any brand-new name is asked for
+    old_names = [f for f in m.fields if f not in new or f in gone]
+    name = str(rng.choice(old_names)) if old_names else _pick_field(S)
+    S.extra = dict(S.extra, follow=["none", "flatten", "arithmetic", "write_back"][follow])
+    if follow == 1:
+        res, exc = S.call(lambda: r[name].flatten())
+        if S.expect_ok(exc, "v[%r].flatten()" % name):
+            S.compare_result(res, m.field_flatten(name), "v[%r].flatten() after remove/add of other fields" % name)
+    elif follow == 2:
+        op, other = _rand_iop(S)
+        S.mutate(lambda rr: _iop_stmt(rr, name, op, other), lambda mm: mm.field_iop(name, op, other), "v[%r] %s %r after remove/add of other fields" % (name, op, other))
+    else:
+        total = sum(m.cells[ix].shape[0] for ix in m.populated())
+        vals = rng.integers(-20, 21, size=total).astype(np.float64)
+        S.mutate(lambda rr: rr[name].set_flattened(vals.copy()), lambda mm: mm.set_flattened(name, vals), "v[%r].set_flattened(...) after remove/add of other fields" % name)
+    return True
+
+
+def _op_flatten_modify_restore(S):
+    """saved = v[f].flatten(); v[f] op= c; v[f].set_flattened(saved)  ->  the data is what it was before the arithmetic"""
+    rng, m, r = S.rng, S.m, S.r
+    name = _pick_field(S)
+    op, other = _rand_iop(S)
+    rows = [ix for ix in m.populated() if m.cells[ix].shape[0] > 0]
+    variant = str(rng.choice(["whole", "whole", "one_cell_view", "one_cell_view", "caller_edit"]))
+    if variant == "one_cell_view" and not rows:
+        variant = "whole"
+    S.extra = {"variant": variant}
+    if variant == "one_cell_view":
+        # a block expression that addresses exactly one (populated) cell: v[i:i+1, j], v[[i], j, k:k+1], ...
+        ix = rows[int(rng.integers(len(rows)))]
+        idx, pat = [], []
+        for a, i in enumerate(ix):
+            form = int(rng.integers(3))
+            idx.append([slice(i, i + 1), [int(i)], int(i)][form])
+            pat.append("sli"[form])
+        if all(p == "i" for p in pat):
+            a = int(rng.integers(len(ix)))
+            idx[a], pat[a] = slice(ix[a], ix[a] + 1), "s"
+        if pat.count("l") > 1:
+            for a in [a for a, p in enumerate(pat) if p == "l"][1:]:
+                idx[a], pat[a] = slice(ix[a], ix[a] + 1), "s"
+        S.extra.update(_pattern_fields(pat, m.ndim))
+        target, exc = S.call(lambda: r[S.key(tuple(idx))])
+        if not S.expect_ok(exc, "v[%s]" % _fmt_idx(idx)) or not isinstance(target, S.V):
+            return False
+        where = "v[%s]" % _fmt_idx(idx)
+        want = m.cells[ix][:, m.fields.index(name)].copy()
+    else:
+        target, where, want = r, "v", m.field_flatten(name)
+    saved, exc = S.call(lambda: target[name].flatten())
+    if not S.expect_ok(exc, "%s[%r].flatten()" % (where, name)):
+        return False
+    if not S.compare_result(saved, want, "%s[%r].flatten()" % (where, name)):
+        return False
+    S.hold(saved, "v[f].flatten()")
+    if variant == "caller_edit":
+        # the caller scribbles over the array it was handed; the vector must not notice
+        mine = S.held.pop()[0]
+        if mine.flags.writeable and mine.size:
+            mine[...] = 0
+            S.ctx.count("caller_edits")
+        return True
+    # model: arithmetic, then the saved *values* are written back -> identical to the state before
+    _, exc = S.call(lambda: _iop_stmt(target, name, op, other))
+    if not S.expect_ok(exc, "%s[%r] %s %r" % (where, name, op, other)):
+        return True
+    S.check_held()
+    _, exc = S.call(lambda: target[name].set_flattened(saved))
+    S.expect_ok(exc, "%s[%r].set_flattened(saved)" % (where, name))
+    return True
+
+
 DISPATCH = {
+    "schema_churn": _op_schema_churn,
+    "flatten_modify_restore": _op_flatten_modify_restore,
     "set_cell_item": lambda S: _op_set_cell(S, "item"),
     "set_cell_data": lambda S: _op_set_cell(S, "data"),
     "get_cell": _op_get_cell,
@@ -1210,7 +1351,9 @@ def _run_case(spec, idx, ctx):
     rng = ctx.rng(idx)
     nd = int(spec["ndim"])
     S = Sess(ctx, rng, nd)
+    S.sparse = spec.get("obs") == "sparse"
     ctx.state["sess"] = S
+    ctx.state["quiet"] = 1 if S.sparse else 0  # sparse: the invariant wrappers do not read the vectors either
     try:
         S.kind = "int" if rng.random() < 0.25 else "float"
         shape = _rand_shape(rng, nd)
@@ -1220,7 +1363,8 @@ def _run_case(spec, idx, ctx):
             ctx.nontrivial((nd, "construction-failed"), False)
             return
         S.live.append(pair)
-        S.post_step(True)
+        if not S.sparse:
+            S.post_step(True)
         if spec["kind"] == "exh":
             ops = list(spec["ops"])
         else:
@@ -1234,7 +1378,17 @@ def _run_case(spec, idx, ctx):
             mutated = DISPATCH[name](S)
             S.done_ops.append(name)
             ctx.count("op:" + name)
-            S.post_step(bool(mutated))
+            if S.sparse:
+                S.check_held()  # harness-held arrays only; no live vector is read
+                S.note_model()
+            else:
+                S.post_step(bool(mutated))
+        ctx.state["quiet"] = 0
+        if S.sparse:
+            # the one full comparison of a sparsely observed history
+            S.op, S.extra = "end_of_history", {"last_op": S.done_ops[-1] if S.done_ops else ""}
+            S.post_step(True)
+            ctx.count("sparse_histories")
         # closing law: writing every field's flattened view back restores the same data
         S.op, S.extra = "final_roundtrip", {}
         if not S.abort:
@@ -1245,11 +1399,12 @@ def _run_case(spec, idx, ctx):
                 S.post_step(True)
         schema = any(o in SCHEMA_OPS for o in S.done_ops)
         block = any(o in SLICE_OPS for o in S.done_ops)
-        ctx.nontrivial("%d|%s" % (nd, ">".join(S.done_ops)), S.ragged and (schema or block))
+        ctx.nontrivial("%d|%s|%s" % (nd, "s" if S.sparse else "d", ">".join(S.done_ops)), S.ragged and (schema or block))
         m0 = S.live[0][1]
-        ctx.observe(ndim=nd, shape=list(shape), cell_kind=S.kind, ops=S.done_ops, live_vectors=len(S.live), final_fields=m0.fields, final_rows=[None if m0.cells[ix] is None else int(m0.cells[ix].shape[0]) for ix in m0.order()][:24], aborted=S.abort)
+        ctx.observe(ndim=nd, shape=list(shape), observation="sparse" if S.sparse else "dense", cell_kind=S.kind, ops=S.done_ops, live_vectors=len(S.live), final_fields=m0.fields, final_rows=[None if m0.cells[ix] is None else int(m0.cells[ix].shape[0]) for ix in m0.order()][:24], aborted=S.abort)
     finally:
         ctx.state["sess"] = None
+        ctx.state["quiet"] = 0
 
 
 def summarize(all_cases, counters, extras):
@@ -1258,5 +1413,7 @@ def summarize(all_cases, counters, extras):
         "operations_executed": dict(sorted(ops.items())),
         "operations_never_executed": sorted(set(ALPHABET) - set(ops)),
         "short_assignments_rejected": counters.get("short_assignment_rejected", 0),
+        "sparsely_observed_histories": counters.get("sparse_histories", 0),
+        "returned_arrays_watched": counters.get("eval:returned_value_changed", 0),
         "tolerance": "exact (0); noise floor 0 by construction (model and library apply identical IEEE operations)",
     }
